@@ -786,6 +786,38 @@ class Gen:
             f = self.gen_function(None, "free", name=oname, params=ps)
             f["overload_set"] = oname
             self.model["functions"].append(f)
+        if getattr(self, "oddities", False):
+            # declarations with types interrogate cannot wrap or only partly knows (exercise remove_type, forward
+            # declarations); they are not part of the model (nothing is claimed about them)
+            n = r.randrange(10000)
+            odd = [f"struct Fwd{n};", f"void odd_fwd_{n}(Fwd{n} *p);", f"Fwd{n} *odd_fwdret_{n}();",
+                   f"void odd_cb_{n}(int (*cb)(int, double));", f"void odd_rv_{n}(std::string &&s);",
+                   f"void odd_pp_{n}(int **pp);", f"void odd_arr_{n}(int (&arr)[4]);",
+                   f"void odd_va_{n}(const char *fmt, ...);", f"union OddU{n} {{ int a; float b; }};",
+                   f"void odd_un_{n}(OddU{n} u);", f"void odd_vp_{n}(void *p, const void *q);",
+                   f"template<class X> X odd_tmpl_{n}(X x);", f"long double odd_ld_{n}(long double x);",
+                   f"wchar_t odd_wc_{n}(wchar_t c);"]
+            for line in r.sample(odd[1:], r.randrange(3, len(odd) - 1)):
+                if f"Fwd{n}" in line and odd[0] not in self.h:
+                    self.h.append(odd[0])
+                if f"OddU{n}" in line and odd[8] not in self.h and not line.startswith("union"):
+                    self.h.append(odd[8])
+                if line not in self.h:
+                    self.h.append(line)
+            self.model["oddities"] = n
+        if getattr(self, "ordering", False):
+            # overload sets whose members are equally ranked for dispatch (unrelated classes, integer widths)
+            oname = self.ident("ford_")
+            mk = lambda t, j: dict(name=f"o{j}_{r.randrange(100)}", type=t, default=None, default_value=None)
+            for c in [c for c in own if not c.get("abstract")][:4]:
+                f = self.gen_function(None, "free", name=oname, params=[mk(T("obj", cls=c["qname"], mode="cref"), 0)])
+                f["overload_set"] = oname
+                self.model["functions"].append(f)
+            oname = self.ident("fint_")
+            for ct in ["int", "unsigned int", "short", "long"]:
+                f = self.gen_function(None, "free", name=oname, params=[mk(T("int", c=ct), 0)])
+                f["overload_set"] = oname
+                self.model["functions"].append(f)
         self.h.append("END_PUBLISH")
         self.h.append("#endif")
         self.cx.append("")
@@ -815,9 +847,11 @@ class Lib:
 
 
 def generate(rng, name="liba", size=1.0, docs=True, native=False, prior=None, dep_bases=(), n_classes=None,
-             adversarial=False, strings=True):
+             adversarial=False, strings=True, ordering=False, oddities=False):
     g = Gen(rng, name, size=size, docs=docs, native=native, prior=prior)
     g.strings = strings
+    g.ordering = ordering
+    g.oddities = oddities
     g.generate(n_classes=n_classes, dep_bases=dep_bases)
     return Lib(g)
 
